@@ -133,6 +133,28 @@ class Extractor:
             el = self.stmt(f, R, n['else'], subst, depth) if 'else' in n else []
             if not th and not el:
                 return cond_items
+            # `if (!buf.empty()) write(buf)`: with an empty buffer the expanded appends run zero times anyway
+            cr = R.render(n['cond'])
+            gm = re.match(r'^\(?!\(?local:(\w+)\.empty(?:\(\))?\)?\)?$|^\(?local:(\w+)\.size(?:\(\))? (?:>|!=) 0\)?$', cr)
+            if gm and not el and th:
+                nm = gm.group(1) or gm.group(2)
+
+                def all_gathered(items):
+                    for it in items:
+                        if it[0] == 'io':
+                            if it[1].get('gathered') != nm:
+                                return False
+                        elif it[0] == 'loop':
+                            if not all_gathered(it[3]):
+                                return False
+                        elif it[0] == 'alt':
+                            if not all_gathered(it[2]) or not all_gathered(it[3]):
+                                return False
+                        else:
+                            return False
+                    return True
+                if all_gathered(th):
+                    return cond_items + th
             return cond_items + [('alt', substitute(R.render(n['cond']), subst), th, el, n['id'], f)]
         if k == 'ForStmt':
             body = self.stmt(f, R, n['body'], subst, depth)
@@ -204,6 +226,13 @@ class Extractor:
                 # arguments first (they may contain reads, e.g. readInt(...) as an argument)
                 for a in args:
                     out.extend(self.expr_items(f, R, a, subst, depth))
+                if item[0] == 'io' and item[1].get('k') == 'write' and item[1].get('srck') == 'other' and getattr(self, '_gather', None) is None:
+                    ga = self.gather_analysis(f, R, n, subst, depth)
+                    if ga is not None:
+                        item[1]['gather'] = {k: v for k, v in ga.items() if k != 'tree'}
+                        if ga['verdict'] == 'exact':
+                            out.extend(ga['tree'])
+                            return out
                 out.append(item)
                 return out
             # push_back(readX(..)) / setter(readX(..)): destination is the callee's object
@@ -219,7 +248,7 @@ class Extractor:
             for a in args:
                 out.extend(self.expr_items(f, R, a, subst, depth, subdest if len(args) == 1 else None))
             cf = self.prog.funcs.get(c['usr'])
-            if cf is not None and (self.involves_medium(f, n) or self.callee_touches_medium(cf)):
+            if cf is not None and getattr(self, '_gather', None) is None and (self.involves_medium(f, n) or self.callee_touches_medium(cf)):
                 if not self.involves_medium(f, n):
                     return out
                 sub = {}
@@ -241,6 +270,127 @@ class Extractor:
                                                                       'CXXBindTemporaryExpr', 'BinaryOperator', 'CXXConstructExpr') else None))
         return out
 
+    ELEM = {'float': (4, 'f', 32), 'double': (8, 'f', 64), 'char': (1, 's', 8), 'unsigned char': (1, 'u', 8), 'short': (2, 's', 16), 'unsigned short': (2, 'u', 16),
+            'int': (4, 's', 32), 'unsigned int': (4, 'u', 32), 'int16_t': (2, 's', 16), 'uint16_t': (2, 'u', 16), 'int32_t': (4, 's', 32), 'uint32_t': (4, 'u', 32)}
+
+    def gather_local(self, f, ptr):
+        """ptr is v.data() / &v[0] / &v.front() of a local std::vector<scalar> v that is default-constructed
+        and only ever appended to (push_back / emplace_back / reserve / size / empty / capacity / data):
+        -> (decl, (elem size, tc, tw)) else None"""
+        m = f.nodes[f.strip(ptr, 'all')]
+        obj = None
+        if m['k'] == 'CXXMemberCallExpr' and m['callee']['name'] == 'data' and m['callee'].get('classq', '').startswith('std::vector'):
+            obj = m.get('obj')
+        elif m['k'] == 'UnaryOperator' and m['op'] == '&':
+            e = f.nodes[f.strip(m['ch'][0], 'all')]
+            if e['k'] == 'CXXOperatorCallExpr' and e.get('op') == '[]' and f.nodes[f.strip(e['args'][1], 'all')].get('cv') == '0':
+                obj = e['args'][0]
+            elif e['k'] == 'CXXMemberCallExpr' and e['callee']['name'] == 'front':
+                obj = e.get('obj')
+        if obj is None:
+            return None
+        o = f.nodes[f.strip(obj, 'all')]
+        if o['k'] != 'DeclRefExpr' or o['decl'].get('dk') != 'local' or o['decl'].get('isref'):
+            return None
+        d = o['decl']
+        tm = re.match(r'^std::vector<([\w ]+)>$', d.get('type', ''))
+        if not tm or tm.group(1) not in self.ELEM:
+            return None
+        init = local_init(f, d['id'])
+        if init is not None:
+            c = f.nodes[f.strip(init, 'noop')]
+            if c['k'] not in ('CXXConstructExpr', 'CXXTemporaryObjectExpr') or c.get('args'):
+                return None
+        for x in f.all_nodes({'DeclRefExpr'}):
+            if x['decl'].get('id') != d['id'] or x['decl'].get('dk') != 'local':
+                continue
+            ok = False
+            for p_ in f.ancestors(x['id']):
+                pn = f.nodes[p_]
+                if pn['k'] in ('ImplicitCastExpr', 'ParenExpr'):
+                    continue
+                if pn['k'] == 'MemberExpr':
+                    continue
+                if pn['k'] == 'CXXMemberCallExpr' and pn['callee']['name'] in ('push_back', 'emplace_back', 'reserve', 'size', 'empty', 'capacity', 'data', 'front') and \
+                        f.strip(pn.get('obj', -1), 'all') == x['id']:
+                    ok = True
+                elif pn['k'] == 'CXXOperatorCallExpr' and pn.get('op') == '[]' and f.strip(pn['args'][0], 'all') == x['id'] and \
+                        f.nodes[f.strip(pn['args'][1], 'all')].get('cv') == '0':
+                    ok = True
+                break
+            if not ok:
+                return None
+        return d, self.ELEM[tm.group(1)]
+
+    def gather_analysis(self, f, R, n, subst, depth):
+        """the write call n emits a local buffer that was filled by appends: the tree of those appends
+        (each an element-sized write of the appended value) stands for the write when the byte count
+        is exactly (number of appended elements) x (element size)"""
+        import symlocal
+        args = f.call_args(n)
+        gl = self.gather_local(f, args[0])
+        if gl is None:
+            return None
+        d, (esz, tc, tw) = gl
+        g = f.events()
+        wv = g.vertex_of.get(n['id'])
+        pushes = [c for c in f.calls() if c['callee']['name'] in ('push_back', 'emplace_back') and c.get('obj') is not None and
+                  f.nodes[f.strip(c['obj'], 'all')].get('decl', {}).get('id') == d['id']]
+        if wv is None or not pushes:
+            return None
+        after = g.reach([wv])
+        for c in pushes:
+            pv = g.vertex_of.get(c['id'])
+            if pv is None or pv in after or wv not in g.reach([pv]):
+                return {'verdict': 'unknown', 'why': 'the buffer is appended to after / around the write', 'local': d['name'], 'esz': esz}
+        self._gather = {'id': d['id'], 'esz': esz, 'fn': f, 'name': d['name']}
+        try:
+            tree = self.stmt(f, R, f.body, subst, depth)
+        finally:
+            self._gather = None
+        # element count
+        dep = []
+
+        def count(items, loopvars):
+            tot = {}
+            for it in items:
+                if it[0] == 'io':
+                    tot = P.add(tot, P.const(1))
+                elif it[0] == 'loop':
+                    if it[1] is None:
+                        return None
+                    for mono in it[1]:
+                        for atom in mono:
+                            if any(re.search(r'\blocal:%s\b' % re.escape(v), atom) for v in loopvars if v):
+                                dep.append(atom)
+                    inner = count(it[3], loopvars + [it[2]])
+                    if inner is None:
+                        return None
+                    tot = P.add(tot, P.mul(it[1], inner))
+                else:
+                    return None
+            return tot
+        N = count(tree, [])
+        try:
+            ws = [subst_poly(w, subst) for w in symlocal.expr_values_at(f, args[1], n['id'])]
+        except symlocal.Undecided as e:
+            return {'verdict': 'unknown', 'why': 'byte count cannot be evaluated: %s' % e, 'local': d['name'], 'esz': esz, 'tree': tree}
+        size_atom = substitute('local:%s.size' % d['name'], subst)
+        own = {(size_atom,): esz}
+        out = {'local': d['name'], 'esz': esz, 'tree': tree, 'count': P.show(N) if N is not None else None, 'width': '/'.join(P.show(w) for w in ws)}
+        if all(P.equal(w, own) for w in ws):
+            out.update(verdict='exact', why='byte count is %s.size() x %d' % (d['name'], esz))
+        elif N is None:
+            out.update(verdict='unknown', why='the number of appended elements has no closed form (conditional appends or uncounted loops)')
+        elif dep:
+            out.update(verdict='mismatch', why='the buffer holds one element per iteration of loops whose trip counts vary (%s) while the byte count %s is a fixed product: '
+                       'when a later range is shorter than the one the product uses, bytes past the constructed elements are written' % (', '.join(sorted(set(dep))[:2]), out['width']))
+        elif all(P.equal(w, P.mul(N, P.const(esz))) for w in ws):
+            out.update(verdict='exact', why='byte count = %s elements x %d' % (P.show(N), esz))
+        else:
+            out.update(verdict='mismatch', why='%s bytes are written from a buffer holding %s elements of %d bytes' % (out['width'], P.show(N), esz))
+        return out
+
     _touch = {}
 
     def callee_touches_medium(self, cf):
@@ -251,6 +401,18 @@ class Extractor:
     def io_item(self, f, R, n, subst, dest):
         c = n['callee']
         obj = f.call_obj(n)
+        G = getattr(self, '_gather', None)
+        if G is not None:
+            # gather mode: the appends to the local buffer are the "writes"
+            if obj is not None and c['name'] in ('push_back', 'emplace_back') and c.get('classq', '').startswith('std::vector'):
+                o = f.nodes[f.strip(obj, 'all')]
+                a = f.call_args(n)
+                if o['k'] == 'DeclRefExpr' and o['decl'].get('id') == G['id'] and len(a) == 1 and f is G['fn']:
+                    v = f.nodes[f.strip(a[0], 'noop')]
+                    return ('io', {'k': 'write', 'node': n['id'], 'fn': f, 'where': f.loc(n['id']), 'srck': 'object', 'src': substitute(R.render(v['id']), subst),
+                                   'src_tc': v.get('tc'), 'src_tw': v.get('tw'), 'src_node': v['id'], 'width': P.const(G['esz']), 'width_alts': [P.const(G['esz'])],
+                                   'gathered': G['name']})
+            return None
         if obj is None or not self.is_medium(f, obj):
             return None
         name = c['name']
